@@ -526,6 +526,66 @@ fn gen_fine2(rng: &mut StdRng, nx: usize, ny: usize, nv: usize, mx: u8, kx: i64,
     json!({"kind": "m2", "ty": "f64", "sx": sx, "sy": sy, "sv": rng.gen_range(0..=1i64), "ox": ox, "oy": oy, "kx": kx, "ky": ky, "xn": xs, "yn": ys, "xf": xf, "yf": yf, "nv": nv, "ops": ops, "family": "fine"})
 }
 
+/// Non-uniform cell widths (integers, in units 2^-s) whose SUMMARY statistics look uniform.  fam: 0 first = last = mean (n >= 5),
+/// 1 first = last only, 2 first = mean only, 3 palindromic, 4 random permutation of {b,..,b, b-d, b+d}, 5 two alternating widths,
+/// 6 one odd cell in the middle.  `small`: perturbation 1 on a base width 16 (relative difference ~6%), else base 2..8.
+fn stat_widths(rng: &mut StdRng, n: usize, fam: usize, small: bool) -> Vec<i64> {
+    let m = n - 1;                                   // number of cells, >= 3
+    let b: i64 = if small { 16 } else { [2i64, 4, 6, 8][rng.gen_range(0..4)] };
+    let d: i64 = if small { 1 } else { rng.gen_range(1..b) };
+    let fam = if fam == 0 && m < 4 { 3 } else { fam };
+    let mut w = vec![b; m];
+    match fam {
+        0 => { // interior pairs +d / -d: sum (hence mean) unchanged, first and last untouched
+            let mut idx: Vec<usize> = (1..m - 1).collect(); for i in (1..idx.len()).rev() { idx.swap(i, rng.gen_range(0..=i)); }
+            let pairs = (idx.len() / 2).min(1 + rng.gen_range(0..2)); for q in 0..pairs.max(1) { w[idx[2 * q]] += d; w[idx[2 * q + 1]] -= d; } }
+        1 => { for i in 1..m - 1 { w[i] = b + rng.gen_range(1..=d.max(2)); } }
+        2 => { w[m - 1] = b + d; w[rng.gen_range(1..m - 1)] = b - d; }
+        3 => { loop { for i in 0..(m + 1) / 2 { let x = (b + rng.gen_range(-d..=d)).max(1); w[i] = x; w[m - 1 - i] = x; } if w.iter().any(|x| *x != w[0]) { break; } } }
+        4 => { w[0] = b - d; w[1] = b + d; for i in (1..m).rev() { w.swap(i, rng.gen_range(0..=i)); } }
+        5 => { let a = (b - d).max(1); for i in 0..m { if i % 2 == 1 { w[i] = a; } } }
+        _ => { w[m / 2] = if rng.gen_bool(0.5) { b + d } else { b - d }; }
+    }
+    w
+}
+fn from_widths(rng: &mut StdRng, w: &[i64]) -> Vec<i64> { let mut xs = vec![rng.gen_range(-20..=20i64)]; for d in w { let l = *xs.last().unwrap(); xs.push(l + d); } xs }
+/// bilinear integer data a + b i + c j + d i j (+ variable number) with non-zero slopes, inside [-vmax, vmax]
+fn bilinear_data(rng: &mut StdRng, nx: usize, ny: usize, nv: usize, vmax: i64) -> Vec<Vec<Vec<i64>>> {
+    let (mx, my) = ((nx - 1) as i64, (ny.max(2) - 1) as i64);
+    let sgn = |rng: &mut StdRng| if rng.gen_bool(0.5) { 1i64 } else { -1 };
+    let room = vmax - nv as i64;
+    let b = sgn(rng) * (room / 4 / mx).clamp(1, 7); let c = if ny > 1 { sgn(rng) * (room / 4 / my).clamp(1, 5) } else { 0 };
+    let d = if ny > 1 && room / 4 >= mx * my { sgn(rng) * (room / 4 / (mx * my)).clamp(1, 3) } else { 0 };
+    let a = rng.gen_range(-(room / 8).max(1)..=(room / 8).max(1));
+    (0..nx).map(|i| (0..ny).map(|j| (0..nv).map(|q| { let (ii, jj) = (i as i64, j as i64); (a + b * ii + c * jj + d * ii * jj + q as i64).clamp(-vmax, vmax) }).collect()).collect()).collect()
+}
+/// 1-D mesh whose widths have uniform-looking summary statistics
+fn gen_stat1(rng: &mut StdRng, n: usize, nv: usize, fam: usize, small: bool) -> Value {
+    let w = stat_widths(rng, n, fam, small); let xs = from_widths(rng, &w);
+    let data = bilinear_data(rng, n, 1, nv, 500);
+    let mut ops: Vec<Value> = vec![];
+    for k in 0..n { ops.push(json!({"op": if k % 2 == 0 { "set" } else { "isetv" }, "node": k, "v": data[k][0]})); }
+    for v in 0..nv { ops.push(json!({"op": "trap", "var": v})); }
+    ops.push(json!({"op": "nodes"})); ops.push(json!({"op": "index_all"}));
+    ops.push(json!({"op": "roundtrip", "p": rng.gen_range(6..=12), "m0": n}));
+    json!({"kind": "m1", "ty": "f64", "sx": rng.gen_range(0..=6i64), "sy": 0, "sv": rng.gen_range(0..=2i64), "ox": ([0i64, 64, -64][rng.gen_range(0..3)]), "xn": xs, "yn": [], "nv": nv, "ops": ops, "family": "stat", "fam": fam})
+}
+/// 2-D mesh, family famx in x and famy in y (7 = ordinary random dyadic grid)
+fn gen_stat2(rng: &mut StdRng, nx: usize, ny: usize, nv: usize, famx: usize, famy: usize, small: bool) -> Value {
+    let mut dir = |rng: &mut StdRng, n: usize, fam: usize| -> (Vec<i64>, i64) {
+        if fam == 7 { grid(rng, n, false) } else { let w = stat_widths(rng, n, fam, small); (from_widths(rng, &w), rng.gen_range(0..=5i64)) } };
+    let (xs, sx) = dir(rng, nx, famx); let (ys, sy) = dir(rng, ny, famy);
+    let (lx, ly) = (xs[nx - 1] - xs[0], ys[ny - 1] - ys[0]);
+    let vmax = ((((1i64 << 28) / (4 * lx * ly)) as f64).sqrt().floor() as i64).min(1000).max(3);
+    let data = bilinear_data(rng, nx, ny, nv, vmax);
+    let mut ops: Vec<Value> = vec![];
+    for i in 0..nx { for j in 0..ny { ops.push(json!({"op": "set", "i": i, "j": j, "v": data[i][j]})); } }
+    for v in 0..nv { ops.push(json!({"op": "trap", "var": v})); ops.push(json!({"op": "sq_trap", "var": v})); }
+    ops.push(json!({"op": "xsec_x", "i": nx - 1})); ops.push(json!({"op": "xsec_y", "j": 0})); ops.push(json!({"op": "vam", "var": 0})); ops.push(json!({"op": "xnodes"})); ops.push(json!({"op": "ynodes"}));
+    json!({"kind": "m2", "ty": "f64", "sx": sx, "sy": sy, "sv": rng.gen_range(0..=1i64), "ox": ([0i64, 64][rng.gen_range(0..2)]), "oy": ([0i64, -64][rng.gen_range(0..2)]),
+           "xn": xs, "yn": ys, "nv": nv, "ops": ops, "family": "stat", "fam": famx * 10 + famy})
+}
+
 pub fn gen(tier: &str, seed: u64, out: &mut Out) {
     let quick = tier == "quick";
     let mut rng = rng(seed, 19);
@@ -558,6 +618,19 @@ pub fn gen(tier: &str, seed: u64, out: &mut Out) {
     } }
     for (kx, ky) in [(12i64, 12i64), (13, 15), (14, 14), (12, 16)] { push(out, gen_fine2(&mut rng, 3 + (kx as usize) % 3, 3 + (ky as usize) % 4, 1 + (kx as usize) % 4, 1, kx, 1, ky)); }
     push(out, gen_fine2(&mut rng, 4, 3, 2, 0, 0, 0, 0)); push(out, gen_fine2(&mut rng, 5, 4, 1, 0, 0, 2, 0)); push(out, gen_fine2(&mut rng, 3, 6, 4, 2, 0, 0, 0));
+    // (c) grids with uniform-looking summary statistics (first / last / mean / min / max / multiset of the cell widths) but non-uniform interior
+    let reps = if quick { 1 } else { 5 };
+    for fam in 0..7usize { for rep in 0..reps {
+        for (q, n) in [[5usize, 9, 12, 6, 7][(fam + rep) % 5], [4usize, 8, 5, 11, 10][(fam + 2 * rep) % 5]].iter().enumerate() {
+            push(out, gen_stat1(&mut rng, *n, [1usize, 4, 2, 3][(fam + rep + q) % 4], fam, q == 1 && (fam + rep) % 2 == 0)); }
+        // the same family in both directions (coincidence in x AND y at once), then against an ordinary grid in the other direction
+        let (nx, ny) = ([5usize, 6, 12, 7, 9][(fam + rep) % 5], [5usize, 8, 5, 4, 6][(fam + 3 * rep) % 5]);
+        push(out, gen_stat2(&mut rng, nx, ny, [1usize, 2, 4][(fam + rep) % 3], fam, fam, false));
+        push(out, gen_stat2(&mut rng, ny + 1, nx.min(9), 1 + (fam + rep) % 3, fam, fam, false));
+        if fam == 0 { for (ax, ay) in [(5usize, 5usize), (6, 9), (12, 5), (7, 6)] { push(out, gen_stat2(&mut rng, ax, ay, 1 + (ax + rep) % 2, 0, 0, ax == 6)); } }
+        push(out, gen_stat2(&mut rng, ny.max(5), nx.min(8), 1 + (fam + rep) % 2, fam, (fam + 1 + rep) % 7, (fam + rep) % 2 == 0 && nx <= 7));
+        if (fam + rep) % 2 == 0 { push(out, gen_stat2(&mut rng, 5 + fam % 3, 4 + rep % 4, 1, fam, 7, false)); } else { push(out, gen_stat2(&mut rng, 4 + rep % 4, 5 + fam % 3, 1, 7, fam, false)); }
+    } }
     // (b) 2-D: every shape 2..12 x 2..12
     let reps = if quick { 1 } else { 6 };
     for nx in 2..=12usize { for ny in 2..=12usize { for rep in 0..reps {
